@@ -10,7 +10,9 @@ selected by a `Variant`, so that the behaviour as pinned stays available for the
 * `d3`  — the condition evaluator (`CondPinned`: short-circuit that leaves tokens unconsumed);
 * `d4`  — the block state machine (`readStepPinned`: "is the current block non-empty?" bookkeeping);
 * `d20` — the quote pair stripped from the whole argument list (`^"(.*)"$` → `^"([^"]*)"$`);
-* `d31` — blanks after the `{` of `} else {` / `} else if (…) {` (missing `\s*` before `$`).
+* `d31` — blanks after the `{` of `} else {` / `} else if (…) {` (missing `\s*` before `$`);
+* `d32` — the special case `,\s*"(\s)"` of the argument tokeniser (`commaBlank`; removed by the repair);
+* `d33` — quoted strings in the argument tokeniser: `"[^"]+"` (pinned) or `"[^"]*"` (`mapQuoted star`).
 
 Characters: `\n`10 space 32 `"`34 `#`35 `$`36 `(`40 `)`41 `,`44 `-`45 `:`58 `;`59 `=`61 `\`92 `{`123 `}`125. -/
 namespace EupsModel.TableParse
@@ -21,10 +23,12 @@ structure Variant where
   d4 : Bool
   d20 : Bool
   d31 : Bool
+  d32 : Bool
+  d33 : Bool
   deriving DecidableEq, Repr
 
-def repaired : Variant := ⟨true, true, true, true⟩
-def pinned : Variant := ⟨false, false, false, false⟩
+def repaired : Variant := ⟨true, true, true, true, true, true⟩
+def pinned : Variant := ⟨false, false, false, false, false, false⟩
 
 /-! ## small string functions -/
 
@@ -125,9 +129,18 @@ structure RwState where
   out : List Str := []          -- rewritten lines, in order
   deriving Repr
 
+/-- newline, leading white space and comment removed (the three `re.sub` at the top of the loop) -/
+def strip (raw : Str) : Str := ((raw.filter (· != 10)).dropWhile Str.isSpace).takeWhile (· != 35)
+
+/-- `^Qualifiers\s*=\s*"([^"]*)"` (IGNORECASE) -/
+def qualLine (l : Str) : Bool :=
+  match kwEq sQualifiers l with
+  | some (34 :: r) => (r.dropWhile (· != 34)).head? == some 34
+  | _ => false
+
 /-- one iteration of the `for line in contents` loop of `_rewrite` -/
 def rewriteLine (st : RwState) (raw : Str) : Res RwState :=
-  let line := ((raw.filter (· != 10)).dropWhile Str.isSpace).takeWhile (· != 35)
+  let line := strip raw
   if line.isEmpty then .ok st else
   match kwEqCap sFile isWordCh line with
   | some cap =>
@@ -139,10 +152,7 @@ def rewriteLine (st : RwState) (raw : Str) : Res RwState :=
   match kwEqCap sAction isTokCh line with
   | some cap => if isInfix sSetup (Str.lower cap) then .ok st else .err .badTable
   | none =>
-  let qual : Bool := match kwEq sQualifiers line with
-    | some (34 :: r) => (r.dropWhile (· != 34)).head? == some 34
-    | _ => false
-  if qual then .ok st else
+  if qualLine line then .ok st else
   if kwLine sGroupC line then .ok { st with inGroup := true, cond := [] } else
   let flav := kwEqCap sFlavorKw isTokCh line
   -- Group … Common … End
@@ -256,9 +266,9 @@ def cmdLine (line : Str) : Option (Str × Str) :=
 def stripOuter (strict : Bool) (s : Str) : Str :=
   match s with
   | 34 :: r =>
-    match r.reverse with
-    | 34 :: m => if strict && m.contains 34 then s else m.reverse
-    | _ => s
+    if r.getLast? == some 34 then
+      if strict && r.dropLast.contains 34 then s else r.dropLast
+    else s
   | _ => s
 
 /-- `re.sub(r',\s*"(\s)"', r'\1"\x01"', s)`; `skip` = characters of a match still to be dropped -/
@@ -274,18 +284,18 @@ def commaBlank : Nat → Str → Str
       | _ => c :: commaBlank 0 cs
     else c :: commaBlank 0 cs
 
-/-- `re.sub(r'("[^"]+")', lambda m: m.group(0) with f applied to every character, s)`.  State `some run`: an
-opening quote (not yet emitted) followed by the quote-free characters `run`. -/
-def mapQuoted (f : Nat → Nat) : Option Str → Str → Str
+/-- `re.sub(r'("[^"]*")', lambda m: m.group(0) with f applied to every character, s)`; with `star = false` the
+pattern is `"[^"]+"` as pinned (an empty pair of quotes is not a match: its second quote may open one).
+State `some run`: an opening quote (not yet emitted) followed by the quote-free characters `run`. -/
+def mapQuoted (star : Bool) (f : Nat → Nat) : Option Str → Str → Str
   | none, [] => []
   | some run, [] => 34 :: run
-  | none, c :: cs => if c == 34 then mapQuoted f (some []) cs else c :: mapQuoted f none cs
+  | none, c :: cs => if c == 34 then mapQuoted star f (some []) cs else c :: mapQuoted star f none cs
   | some run, c :: cs =>
     if c == 34 then
-      match run with
-      | [] => 34 :: mapQuoted f (some []) cs
-      | _ :: _ => 34 :: run.map f ++ 34 :: mapQuoted f none cs
-    else mapQuoted f (some (run ++ [c])) cs
+      if star || !run.isEmpty then 34 :: run.map f ++ 34 :: mapQuoted star f none cs
+      else 34 :: mapQuoted star f (some []) cs
+    else mapQuoted star f (some (run ++ [c])) cs
 
 /-- `[s for s in re.split("[, ]", args) if s]` -/
 def splitArgs : Str → Str → List Str
@@ -297,13 +307,13 @@ def splitArgs : Str → Str → List Str
 /-- `\x01`, `\x02`, `\x03` back to blank, quote, comma -/
 def unprotect (c : Nat) : Nat := if c == 1 then 32 else if c == 2 then 34 else if c == 3 then 44 else c
 
-/-- the argument tokeniser of `_read` (table.py l.330-352) -/
+/-- the argument tokeniser of `_read` -/
 def parseArgs (v : Variant) (text : Str) : List Str :=
   let a := stripOuter v.d20 text
   let a := replaceAll [92, 34] [2] a
-  let a := commaBlank 0 a
-  let a := mapQuoted (fun c => if c == 32 then 1 else c) none a
-  let a := mapQuoted (fun c => if c == 44 then 3 else c) none a
+  let a := if v.d32 then a else commaBlank 0 a
+  let a := mapQuoted v.d33 (fun c => if c == 32 then 1 else c) none a
+  let a := mapQuoted v.d33 (fun c => if c == 44 then 3 else c) none a
   (splitArgs [] a).map fun s => (stripOuter false s).map unprotect
 
 inductive Cmd
@@ -449,15 +459,36 @@ def blockStepPinned (st : RdState) (bl : BlockLine) : RdState :=
     else { st with logical := sTrue, acts := st.acts ++ [st.lb], ifBlock := [], lb := [] }
   | _ => st
 
-def readLine (v : Variant) (pdir : Option Str) (st : RdState) (line : Str) : Res RdState :=
+/-- what a rewritten line is to the reader: a line of the block structure, a command, or nothing -/
+inductive Line | blk (b : BlockLine) | act (a : Action) | skip
+  deriving DecidableEq, Repr
+
+/-- the two patterns of `_read` tried in order, and the command cascade -/
+def classify (v : Variant) (pdir : Option Str) (line : Str) : Res Line :=
   match blockLine v line with
-  | some bl => .ok (if v.d4 then blockStep st bl else blockStepPinned st bl)
+  | some bl => .ok (.blk bl)
   | none =>
     match commandLine v pdir line with
-    | .act a => .ok { st with block := st.block ++ [a] }
-    | .skip => .ok st
+    | .act a => .ok (.act a)
+    | .skip => .ok .skip
     | .bad => .err .badTable
     | .unmodelled => .err .unmodelled
+
+/-- the effect of a classified line on the reader's state -/
+def stepL (v : Variant) (st : RdState) : Line → RdState
+  | .blk bl => if v.d4 then blockStep st bl else blockStepPinned st bl
+  | .act a => { st with block := st.block ++ [a] }
+  | .skip => st
+
+def runL (v : Variant) (st : RdState) (ls : List Line) : RdState := ls.foldl (stepL v) st
+
+/-- all lines classified (stops at the first line that raises) -/
+def classifyAll (v : Variant) (pdir : Option Str) : List Str → Res (List Line)
+  | [] => .ok []
+  | l :: ls => (classify v pdir l).bind fun c => (classifyAll v pdir ls).bind fun cs => .ok (c :: cs)
+
+def readLine (v : Variant) (pdir : Option Str) (st : RdState) (line : Str) : Res RdState :=
+  (classify v pdir line).bind fun l => .ok (stepL v st l)
 
 def readLines (v : Variant) (pdir : Option Str) : RdState → List Str → Res RdState
   | st, [] => .ok st
